@@ -58,6 +58,7 @@ def check(ctx):
     ctx.run(r20_5, f, rec, st, region, out, handle)
     ctx.run(r20_6, f, handle)
     ctx.run(r20_7, f, table)
+    ctx.run(r20_8, f)
     # "optional fields are those of the input": the parser's acceptance of the tag grammar is shared with C16
     from . import c16
 
@@ -468,3 +469,74 @@ def r20_7(ctx, f, table):
             if canon_test(s_.test, True) != (f"{table.key_text} in {table.fill_name}", True):
                 skips.append(norm(s_.test))
     ctx.check(bool(opened) and not others and not skips, "R20.7", g.where(l), "every row of the haplotag TSV reaches the per-read table: the TSV handle is consumed by the table loop only, and the loop skips a row only when its read is already listed", key_of(g, f"tsv-consumers:{others}:{skips}"), other_reads=others, skips=skips)
+
+
+
+def r20_8(ctx, f):
+    """The command's entry point reaches the annotating function, unconditionally, with its three paths in their roles:
+    the parameter that is opened as the GAF receives the entry point's GAF path, the one read as the TSV the TSV path, the
+    one written to the output."""
+    repo = ctx.repo
+    mod = f.module
+    f0 = mod.funcs.get(f.qualname, f)
+    main = mod.funcs.get("main")
+    if main is None:
+        raise AnalysisError("R20.8", mod.relpath, "no main(args)")
+    entry = None
+    for c in walk_own(main.node):
+        if isinstance(c, ast.Call) and any(k.arg is None for k in c.keywords):
+            entry = repo.resolve_call(main, c)
+    if entry is None:
+        raise AnalysisError("R20.8", main.where(), "cannot find the run function main() forwards to")
+    ctx.analysed_func(entry)
+    if entry.qualname == f0.qualname:
+        # the annotator is read inlined into the entry point (normal form `f`): what is opened as the GAF / read as the TSV /
+        # written to must be the entry point's parameter of that role
+        roles_ = {}
+        for x in walk_own(f.node):
+            if isinstance(x, ast.Call) and x.args and isinstance(x.args[0], ast.Name) and x.args[0].id in entry.params:
+                fn = norm(x.func)
+                mode = const_value(x.args[1], "r") if len(x.args) > 1 else "r"
+                if fn == "GAF":
+                    roles_[x.args[0].id] = "gaf"
+                elif fn == "open" and isinstance(mode, str) and mode.startswith("r"):
+                    roles_.setdefault(x.args[0].id, "tsv")
+                elif fn == "open" and isinstance(mode, str) and mode[:1] in ("w", "a"):
+                    roles_[x.args[0].id] = "out"
+        if set(roles_.values()) != {"gaf", "tsv", "out"}:
+            raise AnalysisError("R20.8", entry.where(), f"cannot tell which parameter of the entry point is the GAF, the TSV and the output ({roles_})")
+        bad_ = [f"`{p_}` is used as the {r_} path" for p_, r_ in roles_.items() if r_ not in p_.lower()]
+        ctx.check(not bad_, "R20.8", entry.where(), "the GAF path, the TSV path and the output reach the annotator in their roles", key_of(entry, f"annotator-args:{bad_}"), **({"mismatch": bad_} if bad_ else {}))
+        return
+    calls = [c for c in walk_own(entry.node) if isinstance(c, ast.Call) and repo.resolve_call(entry, c) is not None and repo.resolve_call(entry, c).qualname == f0.qualname]
+    if not calls:
+        ctx.violated("R20.8", entry.where(), f"{entry.qualname} does not call {f0.qualname}: nothing is annotated or written", key_of(entry, "annotator-not-called"))
+        return
+    c = calls[0]
+    top = any(isinstance(st, (ast.Expr, ast.Assign, ast.Return)) and st.value is c for st in entry.node.body) or any(isinstance(st, ast.With) and any(isinstance(x, ast.Expr) and x.value is c for x in st.body) for st in entry.node.body)
+    ctx.check(top, "R20.8", entry.where(c), f"{f0.qualname} is called unconditionally from the entry point", key_of(entry, "annotator-conditional"))
+    # roles of the annotator's parameters, by what is done with them
+    roles = {}
+    for p_ in f0.params:
+        for x in walk_own(f0.node):
+            if isinstance(x, ast.Call) and x.args and isinstance(x.args[0], ast.Name) and x.args[0].id == p_:
+                fn = norm(x.func)
+                mode = const_value(x.args[1], "r") if len(x.args) > 1 else "r"
+                if fn == "GAF":
+                    roles[p_] = "gaf"
+                elif fn == "open" and isinstance(mode, str) and mode.startswith("r"):
+                    roles.setdefault(p_, "tsv")
+                elif fn == "open" and isinstance(mode, str) and mode[:1] in ("w", "a"):
+                    roles[p_] = "out"
+    bound = repo.bound_args(f0, c) if hasattr(repo, "bound_args") else None
+    if not bound or set(roles.values()) != {"gaf", "tsv", "out"}:
+        raise AnalysisError("R20.8", entry.where(c), f"cannot bind the annotator's parameters to roles ({roles})")
+    bad = []
+    for p_, role in roles.items():
+        a = bound.get(p_)
+        if not isinstance(a, ast.Name) or a.id not in entry.params:
+            raise AnalysisError("R20.8", entry.where(c), f"argument for `{p_}` is not a parameter of the entry point")
+        ok = (role in a.id.lower()) or (role == "out" and "out" in a.id.lower())
+        if not ok:
+            bad.append(f"{p_} (the {role} path) receives `{a.id}`")
+    ctx.check(not bad, "R20.8", entry.where(c), "the GAF path, the TSV path and the output reach the annotator in their roles", key_of(entry, f"annotator-args:{bad}"), **({"mismatch": bad} if bad else {}))
